@@ -52,6 +52,23 @@ type item struct {
 
 func items(p params) []item {
 	var as, bs []item
+	// (e): chunks of 10 layouts x both expiry settings; (t): one item per (base, op). Cheap (seconds); they go first
+	// so that an internal deadline on a loaded machine never cuts them
+	var first []item
+	var chunk []ecase
+	for _, l := range eLayouts(p.eLen) {
+		chunk = append(chunk, ecase{Letters: l, ExpireSec: 3600}, ecase{Letters: l, ExpireSec: 0})
+		if len(chunk) >= 20 {
+			first = append(first, item{part: "e", ecases: chunk})
+			chunk = nil
+		}
+	}
+	if len(chunk) > 0 {
+		first = append(first, item{part: "e", ecases: chunk})
+	}
+	for _, c := range tCombos() {
+		first = append(first, item{part: "t", nu: c[0].(int), op: c[1].(string)})
+	}
 	for _, cfg := range []int{1, 2} {
 		n := len(alphabetA(cfg))
 		for i := 0; i < n; i++ {
@@ -62,21 +79,6 @@ func items(p params) []item {
 	}
 	if p.a2Depth < 4 {
 		as = append(as, item{part: "af", cfg: 2})
-	}
-	// (e): chunks of 10 layouts x both expiry settings; (t): one item per (base, op)
-	var chunk []ecase
-	for _, l := range eLayouts(p.eLen) {
-		chunk = append(chunk, ecase{Letters: l, ExpireSec: 3600}, ecase{Letters: l, ExpireSec: 0})
-		if len(chunk) >= 20 {
-			as = append(as, item{part: "e", ecases: chunk})
-			chunk = nil
-		}
-	}
-	if len(chunk) > 0 {
-		as = append(as, item{part: "e", ecases: chunk})
-	}
-	for _, c := range tCombos() {
-		as = append(as, item{part: "t", nu: c[0].(int), op: c[1].(string)})
 	}
 	for _, a := range canonicalAssignments(p.nu + 1) {
 		for _, sh := range p.shapes {
@@ -99,10 +101,10 @@ func items(p params) []item {
 			}
 			return o
 		}
-		as, bs = keep(as), keep(bs)
+		as, bs, first = keep(as), keep(bs), keep(first)
 	}
 	// interleave the two lists proportionally, so that an internal deadline cuts all parts alike
-	var out []item
+	out := append([]item{}, first...)
 	i, j := 0, 0
 	for i < len(as) || j < len(bs) {
 		if j >= len(bs) || (i < len(as) && i*len(bs) <= j*len(as)) {
@@ -350,7 +352,7 @@ func main() {
 		r.NotExhaustive(fmt.Sprintf("internal deadline: %d work items skipped", skipped))
 	}
 	if T.Unsettled > 0 {
-		r.NotExhaustive(fmt.Sprintf("(t) %d cases in which the index did not finish its background merge within 4 s before the build (executed and judged, but a later index snapshot may hide a stale tree)", T.Unsettled))
+		r.NotExhaustive(fmt.Sprintf("(t) %d cases in which the index did not finish its background merge within 10 s before the build (executed and judged, but a later index snapshot may hide a stale tree)", T.Unsettled))
 	}
 	if T.PollCapHit > 0 {
 		r.NotExhaustive(fmt.Sprintf("(t) %d (base, op) combinations whose build polls its context more than %d times", T.PollCapHit, tPollCap))
